@@ -41,7 +41,7 @@ def spell(rng, v: int) -> str:
 
 
 def gen(rng):
-    lo = rng.choice([0x10, 0x401000, 0xfff, 0x1000, 0x7ff0, 0x100000000])
+    lo = rng.choice([0x10, 0x401000, 0xfff, 0x1000, 0x7ff0, 0x100000000, 0, 0, 1])      # 0: ranges that start (and may end) at address 0
     hi = lo if rng.random() < 0.25 else lo + rng.choice([1, 0xf, 0x100, 0xfff1, 0x10000000])
     edge = [lo - 1, lo, hi, hi + 1, (lo + hi) // 2, lo * 16, max(0, lo // 16), hi * 16 + 1, 0]
     insts = []
@@ -62,6 +62,10 @@ def gen(rng):
             m, ops = rng.choice([("push", [f"$0x{t:x}"]), ("mov", [f"$0x{t:x}", "%eax"]), ("mov", [f"0x{t:x}", "%eax"]),
                                  ("cmp", [f"$0x{t:x}", "%rdi"]), ("lea", [f"0x{t:x}(%rip)", "%rax"])])
             insts.append(L.SInst(addr, m, ops, None, None, nb))
+        elif r < 0.66:
+            # far branches of 16/32-bit code: two immediates (segment selector, offset) - not a direct call/jmp to one address
+            sel, t = max(0, rng.choice(edge)), max(0, rng.choice(edge))
+            insts.append(L.SInst(addr, rng.choice(["ljmp", "lcall", "ljmpw", "lcallw"]), [f"$0x{sel:x}", f"$0x{t:x}"], None, None, nb))
         elif r < 0.72:
             insts.append(L.SInst(addr, rng.choice(["ret", "nop", "leave", "int3"]), [], None, None, nb))
         else:
